@@ -20,4 +20,6 @@ python3 tools/rs2lean/consts.py "${VERIF_REPO:-/repo}" lean/TrippyVerif/Gen lean
 (cd lean && lake build TrippyVerif tvdriver 2>&1 | grep -v "depends on axioms\|does not depend" | tail -20)
 [ -f harness/Cargo.lock ] || cp "${VERIF_REPO:-/repo}/Cargo.lock" harness/Cargo.lock
 (cd harness && env -u CARGO_TARGET_DIR -u CARGO_BUILD_TARGET_DIR cargo build --offline --target-dir "$(pwd)/../.build/cargo" 2>&1 | tail -3)
+# the real binary for the pseudo-terminal sessions of C17 (tools/e2e_pty.py)
+(cd "${VERIF_REPO:-/repo}" && CARGO_NET_OFFLINE=true cargo build --offline -p trippy --target-dir "$OLDPWD/.build/cargo-e2e" 2>&1 | tail -1)
 echo setup done
